@@ -16,12 +16,21 @@ CLAIMS = {
     "C01": ("TLA+ spec; TLC bounded model of ring programs (ring laws as invariants) replayed on the implementation; TLC trace validation of seeded expression trees",
             "TLC enumerates every SSA program of ring operations over a small universe of polynomial arrays, checks the commutative-ring laws on the specification's own exact arithmetic (so a wrong oracle does not survive), and every enumerated program is executed on the real numpoly; in addition seeded expression trees of depth <= 4 over the large input space (0-d..3-d broadcasting, overlapping/disjoint names, int/float/complex, scalars/lists/ndarrays on either side, array exponents) are executed and every recorded call is judged by TLC against the same specification.",
             "DESIGN.md section 6 C01"),
+    "C07": ("TLA+ spec of the documented total order (ECmp: sign of the coefficient difference at the largest differing monomial under sort_graded/sort_reverse); TLC trace validation of all six operators, three spellings, maximum/minimum",
+            "Pairs and triples of polynomials (small random ones, perturbed copies that differ below the leading term, and polynomials with up to 30 terms of equal total degree) are compared with all six operators through operator / numpy / numpoly spellings under the four sort settings, which are set in the real process and tracked by the option machine; TLC recomputes each verdict from the TLA+ definition of the order and demands a bool array of the broadcast shape with exactly those values; maximum/minimum must return the larger/smaller operand element.",
+            "DESIGN.md section 6 C07"),
     "C09": ("TLA+ spec; gather maps observed from numpy on label arrays and, for the core functions, defined in TLA+ and cross-checked; TLC trace validation",
             "Every shape function / index expression is executed on arrays of pairwise distinct polynomials; the movement of positions numpy performs is observed on integer label arrays (and for reshape, transpose, concatenate and basic indexing also computed from the TLA+ gather maps of Shape.tla and compared), and TLC checks that each result element is exactly the operand element that numpy puts there, that names and dtype are preserved, plus the global clauses.",
             "DESIGN.md section 6 C09"),
     "C10": ("TLA+ spec: reductions as folds of exact polynomial + and * over index partitions, diff/ediff1d, inner/outer/matmul, det by Leibniz expansion; TLC trace validation",
             "sum/cumsum/mean/prod/diff/ediff1d/inner/outer/matmul/det are executed over 1-d..3-d polynomial arrays with every axis / axis-tuple / keepdims / n / prepend / append choice, through numpoly, numpy, method and ufunc.reduce/accumulate spellings; TLC recomputes each result as the finite sum / product of the operand elements in exact arithmetic from the TLA+ definitions and compares shape and every element (mean as the relation n*mean = sum).",
             "DESIGN.md section 6 C10"),
+    "C18": ("TLA+ spec: glexsort relationally (a permutation under which the key columns are non-decreasing in the selected order), glexindex/bindex/monomial as the exact set {e : in upper truncation and not in lower} listed strictly increasing, cross_truncate by exact integer arithmetic; TLC trace validation",
+            "Key matrices (up to 4 x 400) and all (start, stop, dimensions <= 4, cross-truncation norm, graded, reverse, ordering) choices with bounds <= 6 are executed; TLC enumerates the candidate exponent tuples itself and checks the returned rows for duplicates, membership (both inclusions), order, and the monomial array element by element; norms 0, 1, 2, inf are decided exactly, 0.5 and 0.8 by the bracketing L0 <= Lp <= L1.",
+            "DESIGN.md section 6 C18"),
+    "C19": ("TLA+ spec of leading monomial / coefficient under a monomial order, decomposition, set_dimensions, the sort-proxy relation; TLC trace validation",
+            "lead_exponent/lead_coefficient (all flag choices), isconstant, tonumpy (error for non-constants), todict, decompose (slices sum to the input, one monomial per slice), set_dimensions 1..5, sortable_proxy (a permutation respecting leading exponent then leading coefficient) and argmax/argmin/amax/amin without axis are executed on arrays with zero elements, equal leading terms, negative leading coefficients and many same-degree terms; TLC recomputes every answer from the exact polynomial.",
+            "DESIGN.md section 6 C19"),
     "C14": ("TLA+ state machine of the option record and the global_options stack; TLC exhaustive bounded model with action properties; every edge of the dumped graph replayed on the real library; TLC trace validation of random histories",
             "The option machine is model-checked exhaustively (bounded depth and length, history hidden by a VIEW) for restore-on-every-exit, bad-key-changes-nothing, only-given-keys-change; every edge of the reachable quotient graph is replayed into the real set_options/global_options/get_options (exits by exception included) with get_options() compared to the model after every step; random histories over all twelve real keys are validated by the same specification.",
             "DESIGN.md section 6 C14"),
